@@ -17,7 +17,7 @@ LEVEL_NOTE = ('Trusted: Lean kernel + Mathlib; that np.dot/np.outer/np.exp compu
               'writes (checked differentially to 1e-9 relative, not proved); floating-point rounding is not modelled. The out= '
               'clause is carried by the correspondence and the oracle only (a functional model has no buffers).')
 TECHNIQUE = 'Lean 4 proof (Finset sums, Complex.exp, primitive roots of unity) over a generic executable model + differential correspondence'
-GEN = ['FourierWiring']
+GEN = ['FourierWiring', 'Extent', 'FieldIdx', 'FieldMerge', 'FieldDispatch']
 OPS = ['C01']
 RULE = ('cases: dft2 / idft2 with input and output shapes drawn independently from 1..7 (thorough 1..12 with a 5 % tail up to 16; forced 1x1, single row/column, '
         'even/odd, non-square), complex Gaussian data, per-axis α drawn independently from {1/n_in, 1/n_out, random in ±(0.01,0.6)}, '
@@ -29,8 +29,7 @@ TRUSTED = ['np.dot / np.outer / np.exp / np.conj / np.multiply(out=) compute the
            'Model/Fourier.lean (observed through the 1e-9 relative tolerance of the correspondence, not proved)',
            'functools.lru_cache on _dft2_coords returns the arrays it was given (history independence is only observed: bursts of '
            'repeated shapes in the generator)']
-UNPROVEN = ['out=: "writing into a caller-supplied buffer yields the same values" has no theorem (the functional model has no '
-            'buffers); it is checked on every generated out= case against a fresh allocation and against the model',
+UNPROVEN = ['out=: proved in a buffer model (dft2_out_buffer: real buffers refused, any other buffer ends up holding the values of a fresh allocation and is returned; guard regenerated) — but the in-place call out=f (buffer aliasing the input) is outside that model: it relies on NumPy evaluating E1.dot(f) before writing, observed by the in-place correspondence cases only',
             'inversion is claimed for zero shift and offset only (with a shift the round trip returns a rolled, phased copy: no theorem describes it); '
             'Parseval holds for any shift and offset' ]
 ASSUMPTIONS = ['shapes are at least 1x1; α, shifts real; offsets integers; inversion/Parseval only claimed on a full period '
